@@ -59,6 +59,12 @@ def _in_language(e) -> str | None:
             return 'A:closure over a nullable body'
         if k in gs.SEPPED and (nullable(x[2]) and nullable(x[1])):
             return 'B:join with nullable element and separator'
+        if k == 'opt':
+            t = x[1]
+            while t[0] == 'grp':
+                t = t[1]
+            if t[0] in ('opt', 'clo', 'join', 'gather') and gs.kinds(t) & {'named', 'nlist'}:
+                return 'G:names inside an optional directly over an optional/closure/join (where names are declared is not documented; the optimizer collapses the pair)'
         if k in ('named', 'nlist', 'ovr', 'ovrl'):
             target = x[2] if k in ('named', 'nlist') else x[1]
             ks = gs.kinds(target)
